@@ -389,6 +389,25 @@ def oracle(s, desc, args, res, arrival, exported, drops):
         # rounding of slice ends) is C04's subject: what the overlap stage itself discarded is accepted here; any
         # other disappearance is not
         exp = exp - Counter(drops["detect_partial_overlap_events"])
+        # ... but -O drop is about slices that overlap on a lane: a discarded slice must at least intersect (touch, up to
+        # 1 ns) another slice it can share a lane with - host slices of a rank are merged onto one lane, device slices stay on
+        # the stream they were logged on.  A host slice discarded "because of" a device slice (or the other way round) is
+        # not covered by the rule: the two are never on one lane of the exported trace.
+        eps = 1e-3
+        for u in sorted(set(drops["detect_partial_overlap_events"])):
+            t = s.truth.get(u)
+            if t is None:
+                continue
+            def lane_mate(v, w):
+                if v == u or w["rank"] != t["rank"] or bool(w.get("device")) != bool(t.get("device")):
+                    return False
+                return (not t.get("device")) or w.get("tid") == t.get("tid")
+            if not any(lane_mate(v, w) and w["start"] < t["end"] + eps and t["start"] < w["end"] + eps
+                       for v, w in s.truth.items()):
+                fails.append(("slice_dropped_by_O_drop_without_a_lane_mate_it_overlaps",
+                              {"uid": u, "name": t["name"], "device": bool(t.get("device")),
+                               "interval": [t["start"], t["end"]]}))
+                break
     if got != exp:
         miss, extra = exp - got, got - exp
         # the documented rules are permissions to remove: a slice that a rule could have removed but that is still
